@@ -1,6 +1,6 @@
 (* Props/C19.v — The event log survives concurrent writers and arbitrary corruption.
    Only statements, each closed by [exact], with [Print Assumptions] beneath. *)
-From AP Require Import Base.Str Base.Sorting Model.Events Proofs.EventsP.
+From AP Require Import Base.Str Base.Sorting Model.Events Proofs.EventsP Proofs.RankOrderP.
 From Coq Require Import QArith Sorting.Sorted Sorting.Permutation.
 Open Scope N_scope.
 
@@ -48,6 +48,18 @@ Proof. exact rank_unique. Qed.
 Print Assumptions C19_rank_perm.
 Print Assumptions C19_rank_sorted.
 Print Assumptions C19_rank_unique.
+
+(* hence the ranking does not depend on the order in which the per-module scores arrive (the
+   order of the log, of the tally map's iteration, of concurrent writers), and ranking is idempotent *)
+Theorem C19_rank_order_independent : forall l l',
+  Forall bounded l -> NoDup (map sc_id l) -> Permutation l l' -> rank l = rank l'.
+Proof. exact rank_order_indep. Qed.
+Print Assumptions C19_rank_order_independent.
+
+Theorem C19_rank_idempotent : forall l,
+  Forall bounded l -> NoDup (map sc_id l) -> rank (rank l) = rank l.
+Proof. exact rank_idempotent. Qed.
+Print Assumptions C19_rank_idempotent.
 
 (* writers: any schedule of atomic whole-line appends that drains all writers yields a log that is
    a permutation of all lines (nothing lost, duplicated or split) *)
